@@ -1,18 +1,20 @@
 /- Protocol encoding + source-text printer for the iteration fragment (`Rooc/Pre/Iter.lean`). Import-free. -/
 import Rooc.Pre.Wire
 import Rooc.Pre.Iter
+import Rooc.Pre.Program
+import Rooc.WireModel
 namespace Rooc.Pre
 open Rooc Sexp
 
 partial def CE.dec : Sexp → Option CE
-  | .list [.atom "lit", .atom s] => (decInt s).map .lit
+  | .list [.atom "lit", .atom s] => (decIntStr s).map .lit
   | .list [.atom "var", .str n] => some (.var n)
   | .list [.atom "add", a, b] => do pure (.add (← CE.dec a) (← CE.dec b))
   | .list [.atom "sub", a, b] => do pure (.sub (← CE.dec a) (← CE.dec b))
   | .list [.atom "mul", a, b] => do pure (.mul (← CE.dec a) (← CE.dec b))
   | _ => none
 
-def decIntList (xs : List Sexp) : Option (List Int) := optAll (xs.map fun | .atom s => decInt s | _ => none)
+def decIntList (xs : List Sexp) : Option (List Int) := optAll (xs.map fun | .atom s => decIntStr s | _ => none)
 
 def Src.dec : Sexp → Option Src
   | .list [.atom "range", lo, hi, .atom inc] => do pure (.range (← CE.dec lo) (← CE.dec hi) (inc == "true"))
@@ -28,7 +30,7 @@ def It.dec : Sexp → Option It
   | _ => none
 
 partial def ME.dec : Sexp → Option ME
-  | .list [.atom "lit", .atom s] => (decInt s).map .lit
+  | .list [.atom "lit", .atom s] => (decIntStr s).map .lit
   | .list [.atom "var", .str n] => some (.var n)
   | .list (.atom "cvar" :: .str b :: idx) => (optAll (idx.map CE.dec)).map (.cvar b)
   | .list [.atom "bin", .atom op, a, b] => do pure (.bin (← BinOp.ofName op) (← ME.dec a) (← ME.dec b))
@@ -73,5 +75,65 @@ partial def ME.text : ME → String
     left a ++ " " ++ binText op ++ " " ++ right b
   | .blk k es => k.text ++ "{ " ++ ", ".intercalate (es.map ME.text) ++ " }"
   | .agg k _ body => k.text ++ "(?) { " ++ body.text ++ " }"
+
+/-! ### whole programs -/
+
+def NameM.dec : Sexp → Option NameM
+  | .list [.atom "plain", .str n] => some (.plain n)
+  | .list (.atom "cv" :: .str b :: idx) => (optAll (idx.map CE.dec)).map (.cv b)
+  | _ => none
+def TyM.dec : Sexp → Option TyM
+  | .atom "bool" => some .bool
+  | .list [.atom "real"] => some (.real none)
+  | .list [.atom "real", a, b] => do pure (.real (some (← CE.dec a, ← CE.dec b)))
+  | .list [.atom "nnreal"] => some (.nnreal none)
+  | .list [.atom "nnreal", a, b] => do pure (.nnreal (some (← CE.dec a, ← CE.dec b)))
+  | .list [.atom "int", a, b] => do pure (.int (← CE.dec a) (← CE.dec b))
+  | _ => none
+def DeclM.dec : Sexp → Option DeclM
+  | .list [.atom "decl", .list vars, ty, .list its] => do
+    pure { vars := ← optAll (vars.map NameM.dec), ty := ← TyM.dec ty, its := ← optAll (its.map It.dec) }
+  | _ => none
+def ConsM.dec : Sexp → Option ConsM
+  | .list [.atom "con", name, lhs, rel, .list its] => do
+    let name ← (match name with | .atom "none" => some none | n => (NameM.dec n).map some)
+    let rel ← (match rel with
+      | .atom "none" => some none
+      | .list [.atom k, r] => do pure (some (← Cmp.ofName k, ← ME.dec r))
+      | _ => none)
+    pure { name := name, lhs := ← ME.dec lhs, rel := rel, its := ← optAll (its.map It.dec) }
+  | _ => none
+def ProgM.dec : Sexp → Option ProgM
+  | .list [.atom "prog", .list (.atom "consts" :: cs), obj, .list (.atom "cons" :: cons), .list (.atom "decls" :: ds)] => do
+    let consts ← optAll (cs.map fun | .list [.str n, c] => (CE.dec c).map (fun c => (n, c)) | _ => none)
+    let obj ← (match obj with
+      | .atom "solve" => some none
+      | .list [.atom t, e] => do pure (some (← OptType.ofName t, ← ME.dec e))
+      | _ => none)
+    pure { consts := consts, obj := obj, cons := ← optAll (cons.map ConsM.dec), decls := ← optAll (ds.map DeclM.dec) }
+  | _ => none
+
+def NameM.text : NameM → String
+  | .plain n => n
+  | .cv b idx => b ++ String.join (idx.map idxText)
+def cmpText : Cmp → String | .le => "<=" | .ge => ">=" | .eq => "=" | .lt => "<" | .gt => ">"
+def TyM.text : TyM → String
+  | .bool => "Boolean"
+  | .real none => "Real"
+  | .nnreal none => "NonNegativeReal"
+  | .real (some (a, b)) => "Real(" ++ a.text ++ ", " ++ b.text ++ ")"
+  | .nnreal (some (a, b)) => "NonNegativeReal(" ++ a.text ++ ", " ++ b.text ++ ")"
+  | .int a b => "IntegerRange(" ++ a.text ++ ", " ++ b.text ++ ")"
+def ConsM.text (c : ConsM) : String :=
+  (match c.name with | some n => n.text ++ ": " | none => "") ++ c.lhs.text ++
+  (match c.rel with | some (k, r) => " " ++ cmpText k ++ " " ++ r.text | none => "")
+def DeclM.text (d : DeclM) : String := ", ".intercalate (d.vars.map NameM.text) ++ " as " ++ d.ty.text
+/-- source text of an unrolled program (no `where`, no `for`) -/
+def ProgM.text (p : ProgM) : String :=
+  (match p.obj with
+   | some (t, e) => OptType.name t ++ " " ++ e.text
+   | none => "solve") ++ "\ns.t.\n" ++
+  String.join (p.cons.map (fun c => "    " ++ c.text ++ "\n")) ++
+  (if p.decls.isEmpty then "" else "define\n" ++ String.join (p.decls.map (fun d => "    " ++ d.text ++ "\n")))
 
 end Rooc.Pre
